@@ -10,7 +10,11 @@ var Registry = map[string]func(*ev.Run){
 	"C04": C04,
 	"C07": C07,
 	"C08": C08,
+	"C05": C05,
 	"C10": C10,
+	"C11": C11,
+	"C12": C12,
+	"C13": C13,
 	"C16": C16,
 	"C14": C14,
 }
